@@ -536,7 +536,11 @@ static int get_terminator (char *terminator) {
   int c, j = 0;
 
   while (((c = *outptr++) != LEX_EOF) && (isalnum (c) || c == '_'))
-    terminator[j++] = (char)c;
+    {
+      if (j >= MAXLINE)
+        return 0;		/* macro expansions can be longer than a line; the caller reports it */
+      terminator[j++] = (char)c;
+    }
 
   terminator[j] = '\0';
 
